@@ -1061,7 +1061,7 @@ func main() {
 		for len(raw)%cf.PerFile != 0 {
 			raw = append(raw, nil)
 		}
-		mf := &coqfmt.CaseFile{Dir: *out, Prefix: "C19f", PerFile: cf.PerFile, Header: cf.Header, Type: "fcase",
+		mf := &coqfmt.CaseFile{Dir: *out, Prefix: "C19t", PerFile: cf.PerFile, Header: cf.Header, Type: "fcase",
 			Footer: "Definition M := Eval vm_compute in (@nil nat).\nDefinition D := Eval vm_compute in (@nil nat).\nDefinition V := Eval vm_compute in monitor_f_fails cases.\nPrint M. Print D. Print V.\n"}
 		cases, texts := runMembersClass(R)
 		for i, txt := range texts {
